@@ -2,8 +2,8 @@
 
 Shapes.tla (see its header) decides part 1 and drives part 2:
 
-part 1  cyclic value graphs (<= 4 nodes: boxes, mutable vectors, mutable structs, lists/pairs as
-        connectors, any back edges).  TLC checks the design - work-list equality with a visited set
+part 1  cyclic value graphs (<= 4 nodes: boxes, mutable vectors, mutable structs, lists / pairs / hash
+        maps as connectors, any back edges).  TLC checks the design - work-list equality with a visited set
         of node PAIRS decides bisimilarity, the cycle-aware printer and the fuel-bounded hash
         terminate (decreasing measures; MC_Shapes_alg also as explicit state graph with an action and
         a liveness property), bisimilar nodes hash equal - and that the three deliberately broken
@@ -13,8 +13,12 @@ part 1  cyclic value graphs (<= 4 nodes: boxes, mutable vectors, mutable structs
 part 2  depth / width matrix: operation x shape x depth, each case on its own engine.
 
 Every failure is attributed through the case tag the SPEC computed (operation, kinds on cycles,
-kinds reachable, shared kinds / shape, depth) plus the observed symptom; a failure that matches no
-entry of known_findings.d/C18.json is a VIOLATION.
+kinds reachable, shared kinds, for equal? the prediction of the as-is machine EqAsIs / shape,
+depth) plus the observed symptom; a failure that matches no entry of known_findings.d/C18.json is
+a VIOLATION.  A hang that no finding explains is re-run once alone before it counts (confirm()).
+
+Debug switches (environment): C18_ONLY=model|cyc|deep, C18_ALL=1 (replay every enumerated cyclic
+case), C18_OPS=op,op, C18_TAGRE=regex, C18_DEBUG=1 (work/C18/groups.json: failures grouped by tag).
 """
 import hashlib
 import json
@@ -39,18 +43,18 @@ TIERS = {
         "cfg": {"MAXN": 3, "FULLN": 2, "LEAFS": "{1, 2}", "BRANCH": 2,
                 "FAMSEL": '{"full", "ring", "func1", "func2", "sim", "deep"}',
                 "DEPTHS": "{1000, 100000}", "BIGDEPTHS": "{}"},
-        "cyc_per_op": {"create": 200, "send": 60, "collect": 80, "drop": 200,
-                       "write": 100, "display": 100, "hashkey": 60, "hashset": 40,
-                       "equal": 400, "hashfind": 30},
+        "cyc_per_op": {"create": 200, "send": 50, "collect": 60, "drop": 200,
+                       "write": 90, "display": 90, "hashkey": 40, "hashset": 30,
+                       "equal": 400, "hashfind": 20},
         "cyc_timeout_ms": 2500, "deep_small_timeout_ms": 10000, "deep_timeout_ms": 20000, "deep_big_timeout_ms": 60000,
     },
     "thorough": {
         "cfg": {"MAXN": 4, "FULLN": 2, "LEAFS": "{1, 2}", "BRANCH": 2,
                 "FAMSEL": '{"full", "ring", "func1", "func2", "sim", "deep"}',
                 "DEPTHS": "{1000, 10000, 100000}", "BIGDEPTHS": "{1000000}"},
-        "cyc_per_op": {"create": 3000, "send": 800, "collect": 600, "drop": 3000,
-                       "write": 1500, "display": 1500, "hashkey": 1500, "hashset": 800,
-                       "equal": 8000, "hashfind": 400},
+        "cyc_per_op": {"create": 3000, "send": 600, "collect": 500, "drop": 3000,
+                       "write": 1200, "display": 1200, "hashkey": 600, "hashset": 300,
+                       "equal": 8000, "hashfind": 200},
         "cyc_timeout_ms": 2500, "deep_small_timeout_ms": 20000, "deep_timeout_ms": 60000, "deep_big_timeout_ms": 120000,
     },
 }
@@ -332,12 +336,15 @@ def run(tier, seed):
         per_op = {k: 10 ** 9 for k in per_op}
     if os.environ.get("C18_OPS"):
         per_op = {k: v for k, v in per_op.items() if k in os.environ["C18_OPS"].split(",")}
+    if os.environ.get("C18_TAGRE"):
+        cyc = [c for c in cyc if re.search(os.environ["C18_TAGRE"], c["tag"])]
     sel = select_cyc(cyc, per_op, seed)
     if only in ("", "cyc"):
         # (#%gc-collect): the k-th call in one PROCESS takes 2^k times as long (6 ms ... 1 s, then it
         # starts over; value independent, collector policy) - the cases that call it get a longer limit
-        gc = [c for c in sel if c["meta"]["op"] == "collect"]
-        rest = [c for c in sel if c["meta"]["op"] != "collect"]
+        # - and so do the cases that start a native thread (thread start-up on a busy box)
+        gc = [c for c in sel if c["meta"]["op"] in ("collect", "send")]
+        rest = [c for c in sel if c["meta"]["op"] not in ("collect", "send")]
         # vlib gives up on a chunk after 200 dead processes: batches of 1800 cases, 12 chunks each
         batches = [(f"cyc{i // 1800}", rest[i:i + 1800], T["cyc_timeout_ms"]) for i in range(0, len(rest), 1800)]
         for name, group, tmo in batches + [("cycgc", gc, 8 * T["cyc_timeout_ms"])]:
